@@ -9,6 +9,7 @@
 mod front;
 mod info;
 mod prog;
+mod strs;
 mod util;
 
 fn main() {
@@ -17,6 +18,7 @@ fn main() {
     match mode {
         "prog" => prog::worker(),
         "info" => info::info(),
+        "strs" => strs::worker(),
         "front" => front::worker(),
         _ => {
             eprintln!("usage: vh <prog> ...");
